@@ -400,7 +400,7 @@ func ruleRefTransfer(ctx *Ctx, rule string) {
 		r.Fail("%s: anchor capnp.(*WeakClient).AddRef not found", rule)
 	} else {
 		n := 0
-		for _, b := range f.Blocks {
+		for _, b := range frameBlocks(f) {
 			for _, in := range b.Instrs {
 				st, ok := in.(*ssa.Store)
 				if !ok {
@@ -436,7 +436,7 @@ func ruleRefTransfer(ctx *Ctx, rule string) {
 		r.Fail("%s: anchor capnp.(*ClientPromise).Fulfill not found", rule)
 	} else {
 		zeroed, moved := "", ""
-		for _, b := range f.Blocks {
+		for _, b := range frameBlocks(f) {
 			for _, in := range b.Instrs {
 				st, ok := in.(*ssa.Store)
 				if !ok {
